@@ -194,3 +194,5 @@ func describeRHS(info *types.Info, e ast.Expr) string {
 }
 
 type tokenPos = token.Pos
+
+func sortStrings(s []string) { sort.Strings(s) }
